@@ -444,14 +444,14 @@ pub fn run(run: &Run) {
 			o => CaseOut::fail(code.to_owned(), format!("expected true, got {}", o.short())),
 		}
 	});
-	let n = run.tier.pick(12_000, 300_000);
+	let n = run.tier.pick(300_000, 3_000_000);
 	run.explore("trees", n, 10..=300, |src| check(src, 4, 5));
-	let n = run.tier.pick(300, 4_000);
+	let n = run.tier.pick(6_000, 60_000);
 	run.explore("deep-and-wide", n, 200..=3000, |src| {
 		let (d, w) = if src.chance(1, 2) { (30, 2) } else { (2, 60) };
 		check(src, d, w)
 	});
-	let n = run.tier.pick(1_500, 30_000);
+	let n = run.tier.pick(30_000, 300_000);
 	run.explore("functions-rejected", n, 5..=80, reject_case);
 	for c in ["control", "quote", "backslash", "del", "c1", "linesep", "astral", "bom"] {
 		run.require_class(&format!("char:{c}"), 200);
